@@ -32,7 +32,7 @@ ASSUMPTIONS = [
     'random systems with cond(A^T W A) < 1e5 plus a graded family with cond ~1e2, 1e6, 1e10, 1e12, 1e14 (monomials in the pixel '
     'index, nearly collinear templates, template norms over 2^-12..2^12); rounding tolerances scale with max(1, cond/1e8), the '
     'certified chi2-minimality clause does not; beyond cond 3e14 the unmodified code itself loses accuracy (not generated); float64 inputs',
-    'pcomp: more observations than variables, no constant column; full-rank cases have cond < 1e6, and one case in five has '
+    'pcomp: one or more variables; no constant column except under covariance=True, standardize=False; full-rank cases have cond < 1e6, and one case in five has '
     'an exactly singular covariance matrix (one variable = sum of two others)',
     'HMF steps: every row/column sub-problem is non-singular (cond < 1e5); M >= 2 pixels; positive a, g and '
     'non-negative data for the multiplicative (non-negative) updates so that no denominator vanishes',
@@ -44,8 +44,15 @@ ASSUMPTIONS = [
     'storage types: float32 inputs make computechi2 / pcomp(standardize) work in float32; their rounding tolerances are multiplied '
     'by 1e4 / 1e3 (the certified chi2-minimality clause is not); integer inputs are exact',
     'badness monotonicity in floating point is required up to 1e-9 relative slack',
-    'HMF.iterate: one pass of the real loop is replayed in Coq only for runs with N*M*K <= 300 (exact arithmetic on full doubles); '
-    'for larger runs the loop structure, monotonicity, unit rms, non-negativity and reproducibility are observed directly',
+    'HMF.iterate: one pass of the real loop is replayed exactly in Coq only for runs with N*M*K <= 300 (exact arithmetic on full '
+    'doubles); for larger runs the pass is judged by the certified clauses alone (case CHmfIterS: every row / column of the recorded '
+    'updates solves its normal equations, unit mean square, non-negativity)',
+    'outside the quantifier, recorded in coverage.observations_not_judged and never judged: lists (AttributeError everywhere), NaN / inf '
+    'in data or weights, negative weights, rank-deficient or under-determined systems, one observation, a constant column under '
+    'correlation / standardisation; the first read of a lazy attribute after the caller changed its arrays in place',
+    'an HMF object whose caller changes the arrays in place may answer for the old or for the new data (both accepted, a mixture is a '
+    'violation); numpy.random.seed(seed) on the global generator is the documented behaviour of HMF(seed=...); changes of other '
+    'process-global numpy state are reported without a failing input',
 ]
 
 def translate(ctx):
@@ -113,9 +120,17 @@ def read_orders(rng, names, fixed, nrandom):
     return out
 
 
+LAYOUTS_2D = ['C', 'C', 'F', 'strided', 'rev', 'readonly']
+LAYOUTS_1D = ['C', 'C', 'strided', 'rev', 'readonly']
+OPT_STYLES = ['bool', 'bool', 'int', 'npbool', 'none']
+
+
 def gen_chi2(ctx):
     calls = gen_chi2_systems(ctx)
-    for _, c in calls:
+    for k, (_, c) in enumerate(calls):
+        # class B: the same values as Fortran-ordered / strided views of a larger buffer / negative strides / read-only arrays
+        if k % 2 == 1:
+            c['layout'] = {'A': ctx.rng.choice(LAYOUTS_2D[2:]), 'b': ctx.rng.choice(LAYOUTS_1D), 'sq': ctx.rng.choice(LAYOUTS_1D)}
         c['orders'] = read_orders(ctx.rng, CHI2_ATTRS, [['covar', 'var', 'acoeff', 'yfit', 'chi2', 'dof'],
                                                        ['var', 'yfit', 'covar', 'chi2', 'dof', 'acoeff'],
                                                        ['dof', 'chi2', 'covar', 'acoeff', 'var', 'yfit']], 3)
@@ -229,7 +244,7 @@ def shape_and_dtype_systems(ctx):
 def gen_chi2_systems(ctx):
     rng = ctx.rng
     calls = []
-    while len(calls) < ctx.n(40, 800):
+    while len(calls) < ctx.n(56, 800):
         n = rng.randint(4, 14)
         m = rng.randint(1, 4)
         A = dmat(rng, n, m, -2, 2, 3)
@@ -283,10 +298,10 @@ def gen_pcomp(ctx):
     calls = []
     combos = [(False, False), (False, True), (True, False), (True, True)]
     k = 0
-    ntot = ctx.n(36, 500)
+    ntot = ctx.n(48, 500)
     while len(calls) < ntot:
         st, cv = combos[k % 4]
-        kind = ['plain', 'plain', 'plain', 'plain', 'rankdef', 'big', 'wide', 'i8', 'f4'][len(calls) % 9]
+        kind = ['plain', 'plain', 'plain', 'plain', 'rankdef', 'big', 'wide', 'i8', 'f4', 'plain', 'constcol', 'onevar'][len(calls) % 12]
         no = rng.randint(6, 9)
         nv = rng.randint(2, 4)
         if kind == 'big':
@@ -295,6 +310,13 @@ def gen_pcomp(ctx):
             # no more observations than variables: the matrix is singular by construction
             nv = rng.randint(3, 5)
             no = rng.randint(2, nv)
+        if kind == 'onevar':
+            # class F: a data matrix with a single variable (1 x 1 covariance / correlation matrix)
+            nv = 1
+        if kind == 'constcol':
+            # class F: a constant column is meaningful for the covariance matrix of the raw data only (zero row and column);
+            # its correlation / standardisation is undefined (outside: see ASSUMPTIONS)
+            st, cv = False, True
         if kind == 'i8':
             x = [[float(rng.randint(-20, 20)) for _ in range(nv)] for _ in range(no)]
         else:
@@ -304,30 +326,46 @@ def gen_pcomp(ctx):
             # one variable is an exact linear combination of two others: singular covariance / correlation matrix
             for row in x:
                 row[nv - 1] = row[0] + row[1]
+        if kind == 'constcol':
+            cj = rng.randrange(nv)
+            cval = dy(rng, -4, 4, 3)
+            for row in x:
+                row[cj] = cval
         c1 = frac_cov(x, 1)
         c0 = frac_cov(x, 0)
-        if any(c1[j][j] == 0 for j in range(nv)):
+        if any(c1[j][j] == 0 for j in range(nv)) and kind != 'constcol':
             continue
         sd0 = [math.sqrt(c0[j][j]) for j in range(nv)]
+        if kind == 'constcol' and sum(1 for j in range(nv) if c1[j][j] == 0) != 1:
+            continue
         if st:
             # cov of the standardised array, through the float witnesses
             cs = [[float(c1[i][j]) / (sd0[i] * sd0[j]) for j in range(nv)] for i in range(nv)]
         else:
             cs = [[float(v) for v in r] for r in c1]
         sdc = [math.sqrt(cs[j][j]) for j in range(nv)]
+        if kind == 'constcol':
+            sdc = [v if v > 0 else 1.0 for v in sdc]
         Cm = cs if cv else [[cs[i][j] / (sdc[i] * sdc[j]) for j in range(nv)] for i in range(nv)]
-        if not (rankdef or kind == 'wide') and cond(Cm) > 1e6:
+        if not (rankdef or kind in ('wide', 'constcol')) and cond(Cm) > 1e6:
             continue
         k += 1
         orders = read_orders(rng, PCOMP_ATTRS, [['derived', 'variance', 'coefficients', 'eigenvalues']], 2)
         c = {'f': 'pcomp', 'x': x, 'standardize': st, 'covariance': cv, '_sd0': sd0 if st else [], '_sdc': [] if cv else sdc,
              'orders': orders, '_kind': kind}
+        # classes B / E: memory layout of x; the two options written as int 0/1, numpy bools, None for False, positionally
+        if len(calls) % 3 == 1 and kind not in ('i8', 'f4'):
+            c['layout'] = rng.choice(LAYOUTS_2D[2:])
+        if len(calls) % 4 == 2:
+            c['opt_style'] = rng.choice(OPT_STYLES[2:])
+        if len(calls) % 5 == 3:
+            c['positional'] = True
         if kind in ('i8', 'f4'):
             c['dtype'] = kind
             if kind == 'f4' and st:
                 c['_prec'] = PREC32_PCOMP      # the standardised array is then float32
         calls.append(('pcomp-%s-%s%s' % ('std' if st else 'raw', 'cov' if cv else 'corr',
-                                          '-rankdef' if rankdef or kind == 'wide' else ''), c))
+                                          '-onevar' if kind == 'onevar' else '-rankdef' if rankdef or kind in ('wide', 'constcol') else ''), c))
     return calls
 
 
@@ -335,12 +373,17 @@ def gen_hmf_step(ctx):
     rng = ctx.rng
     calls = []
     epss = [None, None, 0.5, 0.25, 0.0, -0.5, 2.0]
-    while len(calls) < ctx.n(24, 400):
+    while len(calls) < ctx.n(32, 400):
         N = rng.randint(3, 8)
         M = rng.choice([2, 3, 4, 5, 6, 8, 10])
         K = rng.choice([1, 2, 2, 2, 3, 4]) if N >= 5 and M >= 5 else (rng.choice([1, 2]) if N >= 3 and M >= 3 else 1)
         ints = len(calls) % 4 == 3
-        if ints:
+        f4 = len(calls) % 8 == 6
+        if f4:
+            # float32 storage: weights with exact single-precision square roots (badness takes np.sqrt(invvar) in float32)
+            s = dmat(rng, N, M, 0, 4, 3)
+            w = [[(0.0 if rng.random() < 0.15 else rng.choice([0.0625, 0.25, 1.0, 2.25, 4.0])) for _ in range(M)] for _ in range(N)]
+        elif ints:
             # photon counts and integer weights stored as int64
             s = [[float(rng.randint(0, 12)) for _ in range(M)] for _ in range(N)]
             w = [[(0.0 if rng.random() < 0.15 else float(rng.randint(1, 3))) for _ in range(M)] for _ in range(N)]
@@ -368,6 +411,12 @@ def gen_hmf_step(ctx):
         c = {'f': 'hmf_step', 's': s, 'w': w, 'a': a, 'g': g, 'eps': eps, 'nonnegative': len(calls) % 3 == 2}
         if ints:
             c['dtype'] = 'i8'
+        elif f4:
+            c['dtype'] = 'f4'          # float32 spectra and weights (short dyadics: exact), float64 factors
+        if len(calls) % 2 == 1:
+            c['layout'] = {k_: rng.choice(LAYOUTS_2D[2:5]) for k_ in rng.sample(['s', 'w', 'a', 'g'], rng.randint(1, 4))}
+        if len(calls) % 5 == 4:
+            c['opt_style'] = rng.choice(OPT_STYLES[2:4])
         calls.append(('hmf_step-' + ('eps' if eps and eps > 0 else 'noeps'), c))
     return calls
 
@@ -396,7 +445,7 @@ def gen_hmf_solve(ctx):
     rng = ctx.rng
     calls = []
     plan = [(False, None, 2), (True, None, 2), (False, 0.5, 2), (False, None, 1), (True, 0.5, 2), (False, None, 2),
-            (True, None, 1), (False, 0.25, 3)] * ctx.n(1, 10)
+            (True, None, 1), (False, 0.25, 3), (False, 0, 2), (True, 0.25, 2)] * ctx.n(1, 10)
     for nonneg, eps, K0 in plan:
         K = K0
         N = rng.randint(12, 16)
@@ -422,16 +471,27 @@ def gen_hmf_solve(ctx):
                       {'f': 'hmf_solve', 's': s, 'w': w, 'K': K, 'n_iter': 4 if nonneg else 3, 'dtype': dtype,
                        # passes of the real loop replayed in Coq: exact arithmetic on full doubles grows with N*M*K, so only
                        # the small runs are replayed (first or last pass in the quick tier, both in the thorough tier)
-                       'trace_passes': ([] if N * M * K > 300 else ([0, -1] if ctx.thorough else [[0], [-1]][len(calls) % 2])),
+                       'trace_passes': ([0, -1] if ctx.thorough else [[0], [-1]][len(calls) % 2]),
+                       '_spec_only': N * M * K > 300,
                        'seed': SEEDS[len(calls) % len(SEEDS)] if len(calls) % len(SEEDS) != 3 else rng.randrange(1, 10 ** 6),
                        'nonnegative': nonneg, 'eps': eps}))
+        c = calls[-1][1]
+        k = len(calls) - 1
+        # classes B / E: Fortran-ordered / strided / reversed-stride data (read-only in the default mode, which must not write),
+        # numpy scalars and floats for K / n_iter / seed, 0 / 1 for nonnegative, False for epsilon = 0, n_iter=None (default 20)
+        if k % 3 == 1:
+            c['layout'] = {'s': rng.choice(LAYOUTS_2D[2:5] + ([] if nonneg else ['readonly'])), 'w': rng.choice(LAYOUTS_2D[2:5])}
+        if k % 4 in (2, 3):
+            c['opt_style'] = ['int', 'npbool'][k % 2]
+        if k % 10 == 3 and not nonneg:
+            c['n_iter'] = None
     return calls
 
 
 def gen_pca(ctx):
     rng = ctx.rng
     calls = []
-    while len(calls) < ctx.n(12, 150):
+    while len(calls) < ctx.n(16, 150):
         nobj = rng.randint(4, 8)
         npix = rng.randint(8, 14)
         nkeep = rng.choice([1, 2, 2, 3])
@@ -451,6 +511,12 @@ def gen_pca(ctx):
         nreturn = [None, nkeep, nkeep + 1][len(calls) % 3]
         calls.append((tag, {'f': 'pca', 'flux': flux, 'ivar': ivar, 'nkeep': nkeep, 'niter': niter, 'maxiter': maxiter,
                             'nreturn': nreturn, 'trace_passes': [0, -1]}))
+        c = calls[-1][1]
+        k = len(calls) - 1
+        if k % 2 == 1:
+            c['layout'] = {'flux': rng.choice(LAYOUTS_2D[2:]), 'ivar': rng.choice(LAYOUTS_2D[2:])}
+        if k % 4 in (2, 3):
+            c['opt_style'] = ['int', 'npbool'][k % 2]
     return calls
 
 
@@ -493,6 +559,15 @@ def extra_terms(c, r):
         L = o['loop']
         for ps in L['passes']:
             st = ps['states']
+            if c.get('_spec_only'):
+                # too large for the exact re-computation: the certified clauses alone (every row / column solves its normal
+                # equations, unit mean square, non-negativity) on the recorded states
+                recs = st[1:] if c['nonnegative'] else [st[1], st[2], st[-1]]
+                t = '(CHmfIterS %s %s %s %s %s %s)' % (C.boollit(c['nonnegative']), qm(L['spectra']), qm(L['invvar']), oq(c['eps']),
+                                                      state_lit(st[0]), C.coq_list([state_lit(x) for x in recs]))
+                if len(t) <= MAX_TERM:
+                    out.append(('hmf_iter', t))
+                continue
             out.append(('hmf_iter', '(CHmfIter %s %s %s %s %s %s %s)' % (
                 C.boollit(c['nonnegative']), qm(L['spectra']), qm(L['invvar']), oq(c['eps']), qv(ps['norm']),
                 state_lit(st[0]), C.coq_list([state_lit(x) for x in st[1:]]))))
@@ -553,7 +628,7 @@ def run_calls(calls):
     for bi, o in enumerate(outs):
         for k, r in enumerate(o['results']):
             results[bi + k * nb] = r
-    return results, outs[0]['pydl_file']
+    return results, outs[0]['pydl_file'], sorted(set(x for o in outs for x in o.get('import_side_effects', [])))
 
 
 def slim(r):
@@ -607,6 +682,14 @@ def input_distribution(calls, results):
                       'dead_pixels': hist(sum(1 for j in range(len(c['ivar'][0])) if all(r[j] == 0 for r in c['ivar'])) for c in pa),
                       'masked_fraction': round(sum(sum(1 for r in c['ivar'] for v in r if v == 0) for c in pa) /
                                                max(1, sum(len(c['ivar']) * len(c['ivar'][0]) for c in pa)), 3)}
+    def layout_of(c):
+        L = c.get('layout')
+        if not L:
+            return 'C'
+        return L if isinstance(L, str) else '/'.join('%s=%s' % kv for kv in sorted(L.items()))
+    for name, fam in (('computechi2', ch), ('pcomp', pc), ('hmf_step', hs), ('hmf_solve', sv), ('pca_solve', pa)):
+        d[name]['memory_layout'] = hist(layout_of(c) for c in fam)
+        d[name]['option_style'] = hist(c.get('opt_style', 'bool') + ('+positional' if c.get('positional') else '') for c in fam)
     return d
 
 
@@ -619,6 +702,9 @@ def check_solve(c, o):
     if not o['identical']:
         bad.append(('seed-not-reproducible', 'two runs with seed=%d differ' % c['seed']))
     for h in o.get('history_dependent', []):
+        if h.startswith("caller's arrays"):
+            bad.append(('caller-mutation-mixture', 'seed=%d: %s' % (c['seed'], h)))
+            continue
         bad.append(('history-dependent', 'seed=%d, same data: the result of [%s] differs from create-and-solve-at-once' % (c['seed'], h)))
     if not c['nonnegative'] and not o['inputs_unchanged']:
         bad.append(('inputs-modified', "default mode modified the caller's spectra/invvar arrays"))
@@ -626,8 +712,9 @@ def check_solve(c, o):
         bad.append(('nonneg-violated', 'non-negative mode returned a negative factor (min a %r, min g %r)' % (o['min_a'], o['min_g'])))
     L = o.get('loop')
     if L:
-        if L['n_passes'] != c['n_iter']:
-            bad.append(('loop-count', 'HMF.iterate ran %d passes for n_iter=%d' % (L['n_passes'], c['n_iter'])))
+        want_n = c['n_iter'] if c['n_iter'] is not None else (2048 if c['nonnegative'] else 20)
+        if L['n_passes'] != want_n:
+            bad.append(('loop-count', 'HMF.iterate ran %d passes for n_iter=%r' % (L['n_passes'], c['n_iter'])))
         if c['nonnegative'] and L['n_init_nn'] != 128:
             bad.append(('nn-init-count', 'non-negative mode ran %d initial coefficient updates, the source read by the translator says 128' % L['n_init_nn']))
         for ps in L['passes']:
@@ -654,20 +741,53 @@ def check_solve(c, o):
     return bad
 
 
+def generic_checks(tag, c, r, direct):
+    """classes A / B / C / H, the same for every function: reuse of the caller's arrays, aliasing of results, process-global
+    state.  Returns the number of direct evaluations made."""
+    o = r['ok']
+    f = c['f']
+    rep = {'kind': 'failing-input', 'call': public(c), 'impl_result': slim(r)}
+    n = 0
+    if 'reuse' in o:
+        n += 1
+        if o['reuse']:
+            direct.append(('C15:%s:reuse-dependent' % f, '%s: %s' % (tag, '; '.join(o['reuse'])), dict(rep, findings=o['reuse'])))
+    if o.get('global_changed'):
+        direct.append(('C15:%s:global-state:%s' % (f, '+'.join(o['global_changed'])), '%s changed process-global numpy state: %s' % (tag, o['global_changed']),
+                       {'kind': 'broken-correspondence', 'item': 'process-global state across a call', 'call': public(c)}, False))
+    if o.get('result_aliases_input') or o.get('result_aliases_state'):
+        direct.append(('C15:%s:result-aliases-input' % f, "%s returned an array that shares memory with the caller's arrays / the object state (%s)" % (
+            tag, o.get('result_aliases_input') or 'step result'), rep))
+    if o.get('repeat_identical') is False:
+        direct.append(('C15:hmf_step:not-repeatable', 'a step function called twice on the same state returned different bits', rep))
+    return n
+
+
 def correspond(ctx, proof_ok=True):
     ok, log = C.coq_make(['C15/Model.vo'])
     if not ok:
         raise RuntimeError('C15/Model.v does not build:\n' + log[-2000:])
-    calls = gen_chi2(ctx) + gen_pcomp(ctx) + gen_hmf_step(ctx) + gen_pca(ctx) + gen_hmf_solve(ctx)
-    results, pydl_file = run_calls(calls)
+    calls = gen_chi2(ctx) + gen_pcomp(ctx) + gen_hmf_step(ctx) + gen_pca(ctx) + gen_hmf_solve(ctx) + [('observe', {'f': 'observe'})]
+    results, pydl_file, import_fx = run_calls(calls)
     ctx.coverage['pydl_file'] = pydl_file
+    ctx.coverage['import_side_effects'] = import_fx
 
     terms = []
     direct = []
     nd = 0
+    if import_fx:
+        direct.append(('C15:import:global-state:' + '+'.join(import_fx), 'importing pydl (package, pydlutils.math, pydlspec2d.spec1d) in a '
+                       'fresh interpreter changed process-global numpy state: %s' % import_fx,
+                       {'kind': 'broken-correspondence', 'item': 'process-global state at import (numpy error state / print options / global RNG)'}, False))
     for ci, ((tag, c), r) in enumerate(zip(calls, results)):
+        if c['f'] == 'observe':
+            ctx.coverage['observations_not_judged'] = r.get('ok', r)
+            continue
+        if 'ok' in r:
+            nd_extra = generic_checks(tag, c, r, direct)
+            nd += nd_extra
         if 'ok' not in r:
-            direct.append(('C15:%s:impl=%s' % (('pcomp-rankdef' if tag.endswith('-rankdef') else tag), r.get('err')), '%s raised/produced %s on an input inside the property domain (%s)' % (
+            direct.append(('C15:%s:impl=%s' % (('pcomp-rankdef' if tag.endswith('-rankdef') else 'pcomp-onevar' if tag.endswith('-onevar') else tag), r.get('err')), '%s raised/produced %s on an input inside the property domain (%s)' % (
                 tag, r.get('err'), r.get('msg', '')), {'kind': 'failing-input', 'call': public(c), 'impl_result': r}))
             continue
         if c['f'] == 'hmf_solve':
